@@ -445,6 +445,33 @@ def observe_run(C, reads1, reads2, workdir):
             if role in ("out", "demux", "demux_unknown") or (role == "untrimmed" and cfg["demux"] != "none"):
                 files_written[side] += 1
                 files_bp[side] += len(seq)
+    # ---- demultiplexing (C15): which files exist, and the twin run without demultiplexing
+    if cfg["demux"] != "none":
+        files = {1: [], 2: []}
+        for fname, (role, side, n1, n2) in sorted(roles.items()):
+            if role in ("demux", "demux_unknown") and side in (1, 2):
+                files[side].append([codes(n1 or ""), codes(n2 or "")])
+        dmx = dict(files1=files[1], files2=files[2], twin=False, main1=[], demux1=[], main2=[], demux2=[])
+        if not (C.get("duntrim") or C.get("untrimout") or C.get("dtrim")):
+            twinC = {k: v for k, v in C.items() if k not in ("cores", "buffer_size", "sched_seed", "sched_weights")}
+            twinC["demux"] = "none"
+            tw = run_cli(build_argv(twinC), inputs, workdir + "-twin")
+            if tw.exit == 0 and tw.exception is None:
+                def recs_of(data):
+                    return [[codes(n), codes(sq), codes(q or "")] for n, sq, q in parse_records(data or b"")[1]]
+                try:
+                    dmx["main1"] = sorted(recs_of(tw.files.get("out1" + ext)))
+                    dmx["main2"] = sorted(recs_of(tw.files.get("out2" + ext))) if paired else []
+                    dmx["demux1"] = sorted(r for f, (role, side, _a, _b) in roles.items() if side == 1 and role in ("demux", "demux_unknown")
+                                           for r in recs_of(res.files[f]))
+                    dmx["demux2"] = sorted(r for f, (role, side, _a, _b) in roles.items() if side == 2 and role in ("demux", "demux_unknown")
+                                           for r in recs_of(res.files[f]))
+                    dmx["twin"] = True
+                except ValueError:
+                    pass
+            else:
+                ev["twin_failed"] = dict(exit=tw.exit, errors=tw.errors[:2], exc=repr(tw.exception))
+        ev["dmx"] = dmx
     # ---- info file
     rows_by_read = {}
     if C.get("info"):
@@ -593,7 +620,7 @@ def validate_runs(ctx, events, samplers, shards=8, max_rounds=4):
             path = os.path.join(ctx.scratch, f"runs-{rnd}-{i}.ndjson")
             with open(path, "w") as f:
                 for e in part:
-                    f.write(json.dumps({k: e[k] for k in ("id", "want", "cfg", "reads", "report", "stats1", "stats2")},
+                    f.write(json.dumps({k: e[k] for k in ("id", "want", "cfg", "reads", "report", "stats1", "stats2", "dmx") if k in e},
                                        separators=(",", ":")) + "\n")
             r = tlc.model_check("Trace_Run", "Trace_Run.cfg", ctx.scratch, workers=1, env={"TRACE_FILE": path},
                                 timeout=2400, xmx="3g")
